@@ -755,7 +755,7 @@ def check_streams_read(ctx, rep, rng, tier):
               b"\x06\x00\x01\x09\x05\x00\x07\x0b\x01\x00\x01\x01\x21\x0c\x05\x00\x08\x00\x00rest",
               b"\x06\x00\x01\x09\x05\x00\x08\x00\x00", b"\x07\x0b\x01\x00\x01\x01\x21\x0c\x05\x00\x08\x0d\x02\x09\x03\x00\x00",
               b"\x07\x0b\x01\x00\x01\x01\x21\x0c\x05\x0a\x01\x11\x22\x33\x44\x00\x08\x0d\x02\x09\x03\x0a\x00\xc0\x01\x02\x03\x04\x05\x06\x07\x08\x00\x00"]
-    for i in range(400 if tier == "quick" else 12000):
+    for i in range(400 if tier == "quick" else 5000):
         st = rnd_streams(rng)
         buf = io.BytesIO()
         try:
@@ -766,7 +766,8 @@ def check_streams_read(ctx, rep, rng, tier):
         inputs.append(body)
         inputs.append(mutate(rng, body))
         inputs.append(mutate(rng, mutate(rng, body)))
-    for bs in inputs:
+    for k in _iters(len(inputs), 120):       # a mutated count of thousands makes single cases slow
+        bs = inputs[k]
         f = io.BytesIO(bs)
         want, big = with_number_guard(lambda: ai.StreamsInfo.retrieve(f))
         if want is None or big > MAXCOUNT:
@@ -949,12 +950,24 @@ def check_files_write_pieces(ctx, rep, rng, tier):
     return cnt
 
 
+def _iters(n, budget_s):
+    """0 .. n-1, cut short once budget_s seconds have gone by: the two FilesInfo reader loops cost 6-25 ms a case (several
+    model calls per object), the sizes below keep the thorough tier's translation validation within ~10 minutes and this is the
+    safety net on a slow or loaded machine"""
+    import time
+    t0 = time.time()
+    for i in range(n):
+        if i % 16 == 0 and time.time() - t0 > budget_s:
+            return
+        yield i
+
+
 def check_files_read_pieces(ctx, rep, rng, tier):
     if not available(ctx, "gen_FilesInfo_read_piece"):
         return 0
     model = ctx["model"]
     cnt = 0
-    for i in range(120 if tier == "quick" else 15000):
+    for i in _iters(120 if tier == "quick" else 1500, 240):
         st = rnd_filesinfo(rng)
         n = len(st[0])
         # --- names
@@ -1042,7 +1055,7 @@ def check_files_read(ctx, rep, rng, tier):
     inputs = [b"", b"\x00", b"\x00\x00", b"\x01\x00", b"\x02\x0e\x01\x80\x00", b"\x02\x0e\x01\xc0\x0f\x01\x80\x00rest", b"\x01\x19\x02\x00\x00\x00",
               b"\x01\x11\x05\x00\x61\x00\x00\x00\x00", b"\x01\x11\x05\x01\x61\x00\x00\x00\x00", b"\x01\x18\x01\x00\x00", b"\x01\x63\x00\x00",
               b"\x01\x15\x06\x01\x00\x20\x00\x00\x00\x00", b"\x01\x14\x0a\x01\x00\x01\x02\x03\x04\x05\x06\x07\x08\x00", b"\x01\x19\x05\x00"]
-    for i in range(150 if tier == "quick" else 15000):
+    for i in _iters(150 if tier == "quick" else 1200, 240):
         st = rnd_filesinfo(rng)
         for e in st[0]:
             e[1] = [rng.random() < 0.5] if e[0] and rng.random() < 0.7 else []
